@@ -5,6 +5,7 @@ package main
 // callback - observed on Packager.Package; and the built nfpm binary's exit status, output and target path.
 
 import (
+	"encoding/hex"
 	"bytes"
 	"encoding/json"
 	"errors"
@@ -508,6 +509,12 @@ func cmdC06(tier string, seed int64, out, statsOut, replay string) {
 		gen := g.config(100 + i)
 		if i%2 == 0 {
 			signedVariant(&gen.cfg)
+		}
+		// every kind of file reference is present in some configuration of every run, whatever the seed:
+		// a changelog in every second one (the generator sets one in a fifth of its configurations only)
+		if i%2 == 1 && gen.cfg.Changelog == "" {
+			gen.cfg.Changelog = "changelog.yaml"
+			gen.files = append(gen.files, extraFile{Path: "changelog.yaml", Hex: hex.EncodeToString([]byte(changelogYAML)), Mode: 0o644, MTime: 1650000100})
 		}
 		dispatch(fmt.Sprintf("refs-%d", i), c06Desc{Kind: "refs", YAML: marshalConfig(&gen.cfg), Files: gen.files})
 	}
